@@ -220,7 +220,7 @@ func setExpectedRule(P *Program, R *Report) {
 			return false
 		}
 		ar := c.Call.Args
-		return desc(ar[0]) == pdNR && desc(ar[1]) == pkD && desc(ar[2]) == "<gabi.ProofD>.C" && desc(ar[3]) == "<gabi.ProofD>.AResponses["+idx+"]"
+		return desc(ar[0]) == pdNR && desc(ar[1]) == pkD && desc(ar[2]) == "<gabi.ProofD>.C" && descNN(ar[3]) == "<gabi.ProofD>.AResponses["+idx+"]"
 	}})
 	mp(P, R, rule, kProofDCC+":response-present", "contribution with a nonrev part => the hidden response at the revocation index is non-nil", cc, AcceptNilErr(1), &MustPass{Exempt: none, Match: func(a Atom) bool {
 		return desc(a.V) == "<gabi.ProofD>.AResponses["+idx+"]" && a.Want == NonNil
